@@ -2,7 +2,9 @@
 """C17 - the whitespace helper round-trips every string.
 
 proof:          lean/OdfModel/Props/C17.lean (roundtrip, roundtrip_append, no_raw_whitespace,
-                roundtrip_after_merge) about the model lean/OdfModel/Teletype.lean
+                roundtrip_after_merge) about the model lean/OdfModel/Teletype.lean, and
+                lean/OdfModel/Props/C17SaveLoad.lean (roundtrip_through_canon, roundtrip_saveload: the inserted nodes written
+                by the writer model and read back by the reference parser of the XML layer still extract to the string)
 correspondence: node list appended by odf.teletype.addTextToElement  vs  `enc [] s` (drv_teletype)
 oracle:         extractText(addTextToElement(s)) == s directly, appended to a pre-filled element,
                 and after save()+load(); node predicate (no TAB/LF/double blank in text nodes)
@@ -95,7 +97,7 @@ def run(chk, replay=None):
         got = teletype.extractText(p)
         print('replay: s=%r nodes=%s extract=%r' % (s, dump_nodes(new), got))
         return 0 if got == before + s and clean_nodes(new) else 1
-    chk.prove(drivers=['drv_teletype'])
+    chk.prove(modules=['OdfModel.Props.C17', 'OdfModel.Props.C17SaveLoad'], drivers=['drv_teletype'])
     drv = chk.driver('drv_teletype')
     cases = list(gen_strings(chk))
     # ---- correspondence + direct oracles
